@@ -1,4 +1,4 @@
-import FluentProofs.ParserLocalSimEntry
+import FluentProofs.ParserLocalSimEntry2
 /-!
 # Locality of the parser, SIMULATION family, part 6: two sources that hold the same bytes at different offsets
 
